@@ -181,6 +181,10 @@ theorem leaf_adjacent_witness :
     decide
   · rw [leaf_fixed_correct, ← isLeafB_iff]; decide
 
+/-- what the driver evaluates: `validatePartial` is the loop over `leafPaths` by definition -/
+theorem validatePartial_unfold (pm : List Path) (rules : List Rule) (o : Opts) :
+    validatePartial pm rules o = partialFrom mkErr (leafPaths pm) (ownTags rules) o := rfl
+
 /-! ## 3. partial validation reports an error iff the field is a present leaf that violates its own rule -/
 
 theorem lemma_mem_groups (leaves : List Path) (own : Path → List Viol) (o : Opts) (e : FieldErr) :
